@@ -37,6 +37,51 @@ def body_of(src, name, die):
     return src[start:end]
 
 
+def accessor_table(read, die):
+    """The accessor layer of python/_tskitmodule.c: for every entry of TreeSequence_getsetters /
+    Tree_getsetters whose getter hands out a numpy array, how the array is made:
+      view  = <Class>_make_array -> make_owned_array over the object's own memory;
+      copy  = a freshly allocated numpy array filled by the getter.
+    Returns (list of (python name, kind), view_is_readonly)."""
+    src = read("python/_tskitmodule.c")
+    b = body_of(src, "make_owned_array", die)
+    readonly = bool(re.search(r"PyArray_CLEARFLAGS\(\s*array,\s*NPY_ARRAY_WRITEABLE\s*\)", b))
+    for w in ("TreeSequence_make_array", "Tree_make_array"):
+        if "make_owned_array(" not in body_of(src, w, die):
+            die("c13: %s does not use make_owned_array" % w)
+    rows = []
+    for cls in ("TreeSequence", "Tree"):
+        m = re.search(r"static PyGetSetDef %s_getsetters\[\]\s*=\s*\{(.*?)\{\s*NULL\s*\}\s*\};" % cls, src, re.S)
+        if not m:
+            die("c13: cannot find %s_getsetters" % cls)
+        for name, getter in re.findall(r'\.name\s*=\s*"(\w+)",\s*\.get\s*=\s*\(getter\)\s*(\w+)', m.group(1)):
+            g = body_of(src, getter, die)
+            if "%s_make_array(" % cls in g:
+                rows.append(("%s.%s" % (cls, name), "view"))
+            elif re.search(r"PyArray_(SimpleNew|EMPTY|ZEROS)\(", g):
+                rows.append(("%s.%s" % (cls, name), "copy"))
+            elif "PyArray_" in g:
+                die("c13: getter %s makes an array in an unrecognised way" % getter)
+    if not rows:
+        die("c13: no array accessors found")
+    return rows, readonly
+
+
+def cached_arrays(read, die):
+    """python/tskit/trees.py: the arrays cached on the TreeSequence object and whether each is
+    made read-only where it is filled."""
+    py = read("python/tskit/trees.py")
+    out = []
+    for nme in re.findall(r"^        self\.(_individuals_\w+) = None$", py, re.M):
+        m = re.search(r"if self\.%s is None:(.*?)return self\.%s" % (nme, nme), py, re.S)
+        if not m:
+            die("c13: cannot find the cache fill of %s" % nme)
+        out.append((nme, bool(re.search(r"self\.%s\.flags\.writeable = False" % nme, m.group(1)))))
+    if not out:
+        die("c13: no cached arrays found in trees.py")
+    return out
+
+
 def facts(read, die, define):
     out = []
     ch = read("c/tskit/core.h")
@@ -74,6 +119,31 @@ def facts(read, die, define):
             is_first = first.group(1) == "metadata_offset" or (first.group(1) == "metadata" and len(cols) == 1 and t == "population")
             checked = m.group(1) == "true" or is_first
             out.append("Definition c13_md_offset_length_checked_%s : bool := %s." % (t, "true" if checked else "false"))
+    # F14: does every tsk_<t>_table_append_columns check all offset arrays before the first
+    # change (the call of expand_main_columns), and does the binding check them while parsing?
+    firsts = []
+    for t in RAGGED:
+        b = body_of(tc, "tsk_%s_table_append_columns" % t, die)
+        pos = [m.start() for m in re.finditer(r"check_offsets\(\s*num_rows,", b)]
+        m = re.search(r"tsk_%s_table_expand_main_columns\(self," % t, b)
+        if not m or not pos:
+            die("c13: %s append_columns: no expand_main_columns / check_offsets" % t)
+        firsts.append(all(p_ < m.start() for p_ in pos))
+    if any(firsts) and not all(firsts):
+        die("c13: only some append_columns check their offsets before changing the table: %r" % firsts)
+    out.append("Definition c13_append_offsets_checked_first : bool := %s." % ("true" if all(firsts) else "false"))
+    b = body_of(lw, "table_read_offset_array", die)
+    out.append("Definition c13_binding_checks_offsets : bool := %s."
+               % ("true" if "TSK_ERR_BAD_OFFSET" in b else "false"))
+    # the accessor layer: which getter hands out a view of which object's memory / a copy
+    rows, readonly = accessor_table(read, die)
+    out.append("Inductive c13_handout := C13_ReadOnlyView | C13_Copy | C13_WriteableView.")
+    view = "C13_ReadOnlyView" if readonly else "C13_WriteableView"
+    out.append("Definition c13_accessors : list (string * c13_handout) := [%s]."
+               % "; ".join('("%s"%%string, %s)' % (n, view if k == "view" else "C13_Copy") for n, k in rows))
+    out.append("Definition c13_cached_arrays : list (string * c13_handout) := [%s]."
+               % "; ".join('("TreeSequence.%s"%%string, %s)' % (n, "C13_ReadOnlyView" if ro else "C13_WriteableView")
+                           for n, ro in cached_arrays(read, die)))
     # BaseTable.__getitem__ (slice | mask | ids): is the copy of metadata_schema guarded for
     # tables without that attribute (ProvenanceTable)?
     py = read("python/tskit/tables.py")
